@@ -303,6 +303,12 @@ impl<Ctrl, Strm, Ctxt> Camera<Ctrl, Strm, Ctxt> {
             return Err(StreamError::InStreaming.into());
         }
 
+        // Streaming can't be started without `GenApi` context, make sure it's loaded before
+        // changing the state of the device.
+        if self.ctxt.is_none() {
+            return Err(CameleonError::GenApiContextMissing);
+        }
+
         // Enable streaimng.
         self.ctrl.enable_streaming()?;
         let mut ctxt = self.params_ctxt()?;
